@@ -162,7 +162,12 @@ theorem rinv_initFail {st : State} (hI : RInv cfg st) (sid : Nat) : RInv cfg (in
   | some s =>
     simp only
     split
-    · exact rinv_closeSess hI sid _ s hs rfl rfl
+    · refine rinv_setSess hI sid s { s with queue := [], closed := true } hs rfl rfl rfl rfl ?_ rfl rfl
+      intro k sid'' h
+      simp only [closeSess] at h
+      split at h
+      · cases h
+      · exact h
     · exact hI
 
 theorem rinv_evict {st : State} (hI : RInv cfg st) (sid : Nat) : RInv cfg (evict st sid) := by
@@ -198,6 +203,18 @@ theorem rinv_take {st : State} (hI : RInv cfg st) (sid : Nat) : RInv cfg (take c
           split
           · exact rinv_setSess hI sid s _ hs rfl rfl rfl rfl (fun _ _ h => h) rfl rfl
           · exact rinv_setSess hI sid s _ hs rfl rfl rfl rfl (fun _ _ h => h) rfl rfl
+    · exact hI
+
+theorem rinv_packErr {st : State} (hI : RInv cfg st) (sid : Nat) : RInv cfg (packErr st sid) := by
+  unfold packErr
+  cases hs : st.sess sid with
+  | none => exact hI
+  | some s =>
+    simp only
+    split
+    · cases hqe : s.queue with
+      | nil => exact hI
+      | cons q rest => exact rinv_setSess hI sid s _ hs rfl rfl rfl rfl (fun _ _ h => h) rfl rfl
     · exact hI
 
 theorem rinv_resolved {st : State} (hI : RInv cfg st) (sid : Nat) (ans : Option IP) :
@@ -267,6 +284,7 @@ theorem rinv_step (hif : cfg.insertFirst = false) {st : State} (hI : RInv cfg st
   | initOk sid => exact rinv_initOk hI sid
   | initFail sid => exact rinv_initFail hI sid
   | take sid => exact rinv_take hI sid
+  | packErr sid => exact rinv_packErr hI sid
   | resolved sid ans => exact rinv_resolved hI sid ans
   | storeIP sid => exact rinv_storeIP hI sid
   | readSend sid => exact rinv_readSend hI sid
